@@ -51,7 +51,7 @@ Definition code_today : behaviour := mkBehaviour false false false false false f
 Definition repaired : behaviour := mkBehaviour true true true true true true true.
 
 (** SET BY THE COORDINATOR: [code_today] while the defects are open, [repaired] once the fix: commits landed *)
-Definition current_behaviour : behaviour := code_today.
+Definition current_behaviour : behaviour := repaired.
 
 (* ------------------------------------------------------------------------------------------ *)
 (** * Exception classes *)
